@@ -13,6 +13,7 @@ import shutil
 import warnings
 
 import numpy as np
+from pyverif.tv import tv_to_np
 
 from .. import families, tv, tvspec, decide, runner, findings
 from ..spec import ModelSpec, NodeSpec, build_python
@@ -144,7 +145,7 @@ def job_fn(job):
 def _with_smap(c, spec):
     """run() exposes no state map; give validate() the trivial one (every position its own entry) so that only the
     fingerprint-based layout obligations apply"""
-    ny = int(np.size(c.args[1]))
+    ny = int(np.asarray(tv_to_np(c.args[1])).size)
     c.smap = {f"__pos{j}": j for j in range(ny)}
     return c
 
